@@ -297,7 +297,7 @@ pub fn is_benign(f: &Fault) -> bool {
 }
 
 /// every fault applicable to one call of the recorded trace
-fn faults_for(ev: &Event) -> Vec<Fault> {
+pub(crate) fn faults_for(ev: &Event) -> Vec<Fault> {
     let e = |cls: u32, errno: i32| Fault::errno(cls, ev.ord, errno);
     let short = |cls: u32, n: u64| Fault { cls, ord: ev.ord, kind: shim::F_SHORT, a: n, b: 0 };
     match ev.call.as_str() {
